@@ -8,6 +8,26 @@ ENV = "GOFLAGS=-mod=mod GOPROXY=off GOSUMDB=off GOTOOLCHAIN=local"
 
 # property -> (category, technique, level text, level note, design ref)
 CHECKS = {
+ "C07": ("exploration",
+   "runtime monitor: width/UTF-8/termination assertions on every real Fill, Decor and rendered row for generated styles and widths; CPU-time/heap watchdog decides non-termination",
+   "Real BarFiller.Fill, Decorator.Decor and whole rows (manually refreshed container) are executed for ~140k (quick) / ~2.5M (thorough) generated styles (empty, zero-width, wide, multi-rune components), widths 0..300 (0..40 swept fully), requested widths, wrappers and int64 values; each output's display width is recomputed with the harness' own table and compared with the allotted width / the reported width / the documented row layout; a call that burns >1.5 s CPU or >768 MiB heap is non-terminating.",
+   "harness width table for the generated alphabet; ANSI colouring only through Meta wrappers; user fillers/decorators not held to the bound",
+   "DESIGN.md 4/C07"),
+ "C09": ("exploration",
+   "runtime monitor: reference state machine compared with the real getters (and frame Statistics) after every step of generated sequential programs; exhaustive to length 3 (thorough 4)",
+   "All operation sequences of length 3 (thorough: 4) over a 20-letter alphabet from 5 initial totals, plus random sequences up to length 40, are executed on real bars in non-refreshing, manual and auto containers; after every step Current/Completed/Aborted (manual: Statistics in a rendered frame) must equal the Appendix-B reference machine.",
+   "reference machine transcribes the documented rules; overflowing sums excluded; stops at the first terminal transition",
+   "DESIGN.md 4/C09, Appendix B"),
+ "C19": ("exploration",
+   "runtime monitor: scripted under-layer below the real proxies; both sides of the proxy, Bar.Current and a recording moving-average decorator are compared per call",
+   "~3.8k (quick) / ~96k (thorough) scripted transfers through real ProxyReader/ProxyWriter over all 8 dynamic interface shapes x ewma x totals, with short/zero transfers, injected delays and errors at every position; bytes, n, err, Close forwarding, fast-path offering, Bar.Current and the delivered (n, duration) samples are checked.",
+   "duration bounds are nesting relations between measured intervals; samples after completion are optional",
+   "DESIGN.md 4/C19"),
+ "C20": ("exploration",
+   "runtime monitor: read-back oracle (printed string parsed and compared in 300-bit arithmetic with the true value) over unit-boundary lattices and random values; recording moving average for the estimator clauses",
+   "Every size/percentage/time/speed decorator output for ~220k (quick) / ~6M (thorough) generated (value, verb, flag, precision, route) cases is parsed back and must equal the true value within half a unit of the last printed digit with the largest fitting unit; sample sequences with n<=0 / zero durations must be conserved and reach the estimator through wrappers; elapsed/average speed must freeze on completion.",
+   "documented domain only (0<=current<=total, <60 h); float eps 4e-16 relative",
+   "DESIGN.md 4/C20"),
  "C08": ("exploration",
    "runtime monitor: reference-model oracle (big-integer expected fill) over an exhaustive boundary lattice + seeded random inputs + sorted chains, run against the real BarFiller",
    "Every Fill of the real library on ~1.2M (quick) / ~16M (thorough) (total,current,refill,width,style) tuples is compared with exact big-integer proportional fill; boundary lattice over int64 x widths is enumerated completely, monotonicity is checked on sorted chains. Held = no counterexample among the inputs run.",
